@@ -123,6 +123,7 @@ pub fn run_case(case: &Case, st: &mut Stats) -> CaseResult {
     let mut memo: SddMemo = HashMap::new();
     let mut positions: BTreeSet<usize> = BTreeSet::new();
     let mut big_node = false;
+    let mut widest = 0usize;
     let mut pairs = 0u64;
     let mut sweep_budget = 12usize;
     for (i, op) in case.ops.iter().enumerate() {
@@ -150,8 +151,12 @@ pub fn run_case(case: &Case, st: &mut Stats) -> CaseResult {
                     f
                 })?;
                 positions.insert(n.vtree().value());
-                if !matches!(n, SddPtr::BDD(_)) && sdd_elements(n).len() >= 3 {
-                    big_node = true;
+                if !matches!(n, SddPtr::BDD(_)) {
+                    let ne = sdd_elements(n).len();
+                    if ne >= 3 {
+                        big_node = true;
+                    }
+                    widest = widest.max(ne);
                 }
             }
         }
@@ -253,6 +258,12 @@ pub fn run_case(case: &Case, st: &mut Stats) -> CaseResult {
     st.add("canonicity_pairs", pairs);
     st.add("table_grows", rsdd::verif_hooks::table_grows() - grow0);
     st.bump(&format!("case.vtree_kind.{}", case.vt.kind % 4));
+    st.bump(match widest {
+        0..=2 => "case.widest_node.le2",
+        3..=8 => "case.widest_node.3-8",
+        9..=20 => "case.widest_node.9-20",
+        _ => "case.widest_node.gt20",
+    });
     if big_node || positions.len() >= 2 {
         st.mark_nontrivial();
     }
@@ -263,15 +274,15 @@ impl SubCheckT for WellFormed {
     type Case = Case;
     const NAME: &'static str = "wellformed";
     const REPLAY_ATTEMPTS: u32 = 20;
-    const RULE: &'static str = "C03-style histories on the compressing builder (unique tables of 1..32 slots or default), with the extra op Rebuild(i) = re-derive entry i from its truth table as a disjunction of cubes in a shuffled variable order. For every node reachable from every result, with left/right variable sets taken from the harness's own in-order numbering of the vtree: primes non-false, pairwise disjoint, exhaustive (truth tables); variables syntactically reachable in primes within the left set and in subs within the right set; subs pairwise distinct (pointer and function); no {(T,s)}, no {(p,T),(!p,F)}, binary nodes with distinct children; and equal truth tables => pointer equality (results, rebuilds and negations); the first 12 decision-node results of each history are additionally conditioned on every (variable, value) and the cofactors are held to the same function / node / canonicity checks. Non-trivial: a non-binary decision node with >=3 elements or decision nodes at >=2 vtree positions";
+    const RULE: &'static str = "C03-style histories on the compressing builder (unique tables of 1..32 slots or default), with the extra op Rebuild(i) = re-derive entry i from its truth table as a disjunction of cubes in a shuffled variable order, and the op Dense(bits) = build the function with that truth table by Shannon expansion (wide decision nodes, >20 elements). For every node reachable from every result, with left/right variable sets taken from the harness's own in-order numbering of the vtree: primes non-false, pairwise disjoint, exhaustive (truth tables); variables syntactically reachable in primes within the left set and in subs within the right set; subs pairwise distinct (pointer and function); no {(T,s)}, no {(p,T),(!p,F)}, binary nodes with distinct children; and equal truth tables => pointer equality (results, rebuilds and negations); the first 12 decision-node results of each history are additionally conditioned on every (variable, value) and the cofactors are held to the same function / node / canonicity checks. Non-trivial: a non-binary decision node with >=3 elements or decision nodes at >=2 vtree positions";
     fn cases(tier: Tier) -> u32 {
         tier.pick(12_000, 150_000)
     }
     fn strategy(_tier: Tier) -> BoxedStrategy<Case> {
         (
-            vtree_case_strategy(6, false),
+            vtree_case_strategy(8, false),
             prop_oneof![2 => Just(None), 6 => (1u16..=32).prop_map(Some)],
-            proptest::collection::vec(sop_strategy(true, true), 0..=40),
+            proptest::collection::vec(sop_strategy_ext(true, true, true), 0..=40),
         )
             .prop_map(|(vt, table_cap, ops)| Case {
                 vt,
@@ -293,7 +304,7 @@ pub fn property() -> Property {
         subs: vec![sub::<WellFormed>()],
         fuzz: vec![FuzzSpec { target: "sdd_ops", runs: 40000, max_len: 300 }],
         assumptions: vec![
-            "compressing builder only (compression switched on); functions over <= 6 variables",
+            "compressing builder only (compression switched on); functions over <= 8 variables",
             "the library's is_canonical/is_compressed/is_trimmed are recorded in the histogram but never decide pass/fail",
         ],
         nt_floor_percent: 15,
